@@ -2,8 +2,8 @@
 from vmc.ref.c15_catalogue import (Entry, Spec, L, ten, mat, mask_for, cp_dec, tucker_dec, parafac2_dec, slices_for,
                                    ranks_for, tt_rank_for, tr_rank_for, estimator, raising_callback, quiet_callback)
 
-ALL = (0, 1, 2)
-S3 = (0, 1)  # orders >= 3
+ALL = (0, 1, 2, 3)
+S3 = (0, 1, 3)  # orders >= 3
 
 
 def _specs(fn, base, table, sizes=ALL):
@@ -97,7 +97,6 @@ def hals_table():
          {"sparsity_coefficients": "list-with-entry-on-fixed-mode", "fixed_modes": "without-last-mode", "init": "cp-unit-weights"}),
         ("nn_modes[list]+user-init", {"nn_modes": L(lambda c: [0]), "init": _ui("none", True)}, {"init": "cp-unit-weights", "nn_modes": "list"}),
         ("nn_modes[None]+user-init", {"nn_modes": None, "init": _ui("none", True)}, {"init": "cp-unit-weights"}),
-        ("exact+user-init", {"exact": True, "n_iter_max": 1, "init": _ui("none", True)}, {"init": "cp-unit-weights"}),
         ("return_errors", {"return_errors": True}, {}),
     ]
     return t
